@@ -24,6 +24,7 @@ type vfC14Kind struct {
 	Mint   func(m *vfMintCtx)
 	JWKS   func(p *vfIdP) []byte
 	UInfo  func(c map[string]interface{})
+	AT     func(c map[string]interface{}) // Keycloak personality: alters the claims of the (JWT) access token
 	Need   string // must-reject applies only when the ID token lacks this claim (the profile endpoint is its only source)
 }
 
@@ -104,6 +105,21 @@ func vfC14Kinds() []vfC14Kind {
 	tok("nonce-absent", all, func(m *vfMintCtx) { delete(m.Claims, "nonce") })
 	tok("nonce-number", all, func(m *vfMintCtx) { m.Claims["nonce"] = 12 })
 	tok("payload-not-json", all, func(m *vfMintCtx) { m.Sign.Raw = "eyJhbGciOiJFUzI1NiJ9." + vfB64([]byte("not json")) + ".AAAA" })
+	// Keycloak personality: the access token is a JWT whose role claims feed the session's groups
+	at := func(name string, f func(c map[string]interface{})) {
+		ks = append(ks, vfC14Kind{Name: "at:" + name, On: "token", AT: f})
+	}
+	at("realm-access-string", func(c map[string]interface{}) { c["realm_access"] = "admin" })
+	at("realm-roles-string", func(c map[string]interface{}) { c["realm_access"] = map[string]interface{}{"roles": "admin"} })
+	at("realm-roles-numbers", func(c map[string]interface{}) { c["realm_access"] = map[string]interface{}{"roles": []int{1, 2}} })
+	at("resource-access-list", func(c map[string]interface{}) { c["resource_access"] = []int{1} })
+	at("resource-access-client-string", func(c map[string]interface{}) { c["resource_access"] = map[string]interface{}{"app": "x"} })
+	at("resource-roles-string", func(c map[string]interface{}) { c["resource_access"] = map[string]interface{}{"app": map[string]interface{}{"roles": "admin"}} })
+	at("resource-roles-object", func(c map[string]interface{}) { c["resource_access"] = map[string]interface{}{"app": map[string]interface{}{"roles": map[string]interface{}{"a": 1}}} })
+	at("resource-roles-list-of-objects", func(c map[string]interface{}) { c["resource_access"] = map[string]interface{}{"app": map[string]interface{}{"roles": []interface{}{map[string]interface{}{"a": 1}, nil, 3}}} })
+	at("resource-roles-null", func(c map[string]interface{}) { c["resource_access"] = map[string]interface{}{"app": map[string]interface{}{"roles": nil}} })
+	at("roles-absent", func(c map[string]interface{}) { delete(c, "realm_access"); delete(c, "resource_access") })
+	at("not-a-jwt", func(c map[string]interface{}) { c["__opaque"] = true })
 	ks = append(ks, vfC14Kind{Name: "jwks-empty", On: "jwks", Reject: all, JWKS: func(p *vfIdP) []byte { return []byte(`{"keys":[]}`) }})
 	ks = append(ks, vfC14Kind{Name: "jwks-wrong-types", On: "jwks", Reject: all, JWKS: func(p *vfIdP) []byte { return []byte(`{"keys":[{"kty":7,"kid":[1]}, "x", null]}`) }})
 	ks = append(ks, vfC14Kind{Name: "jwks-array", On: "jwks", Reject: all, JWKS: func(p *vfIdP) []byte { return []byte(`[1,2,3]`) }})
@@ -147,9 +163,14 @@ func vfC14(w *vfWorld) {
 		cfg.Provider = "plain"
 		cfg.Extra = []string{"--pass-access-token=true", "--set-xauthrequest=true"}
 	}
+	// a fifth of the OIDC worlds run the Keycloak flavour of the provider: JWT access tokens carry the roles
+	kc := cfg.Provider == "oidc" && (flow == "login" || flow == "refresh" || flow == "bearer") && t.Prob("c14.keycloak", 200)
+	if kc {
+		cfg.Provider = "keycloak-oidc"
+	}
 	cfg.PKCE = vfPick(t, "c14.pkce", []string{"", "S256"})
 	audClaim := vfPick(t, "c14.audclaim", []string{"", "azp", "client_ids"})
-	if audClaim != "" && cfg.Provider == "oidc" {
+	if audClaim != "" && cfg.Provider != "plain" {
 		cfg.Extra = append(cfg.Extra, "--oidc-audience-claim="+audClaim)
 	}
 	idp := w.StartIdP()
@@ -180,6 +201,7 @@ func vfC14(w *vfWorld) {
 		}
 	}
 	cs := &vfC14Case{Flow: flow, Provider: cfg.Provider, Store: cfg.Store}
+	_ = kc
 	for c := range lacks {
 		cs.Lacks = append(cs.Lacks, c)
 	}
@@ -187,7 +209,37 @@ func vfC14(w *vfWorld) {
 	w.sample = cs
 
 	var curMint func(m *vfMintCtx)
+	var curAT func(c map[string]interface{})
+	var curATHit func(c *vfIdpCall) bool
+	var curATFired func()
+	atClaims := func(u *vfUser, opaque string) map[string]interface{} {
+		c := idp.BaseClaims(u, "")
+		c["jti"] = opaque
+		c["typ"] = "Bearer"
+		c["realm_access"] = map[string]interface{}{"roles": []string{"offline_access", "admin"}}
+		c["resource_access"] = map[string]interface{}{"app": map[string]interface{}{"roles": []string{"reader"}}, "account": map[string]interface{}{"roles": []string{"view-profile"}}}
+		if audClaim != "" {
+			c[audClaim] = vfClientID
+		}
+		return c
+	}
 	idp.Mint = func(m *vfMintCtx) {
+		if kc && m.Resp != nil {
+			// replace the opaque access token by a signed one (RS256: deterministic signature)
+			if opaque, ok := m.Resp["access_token"].(string); ok {
+				c := atClaims(m.User, opaque)
+				if curAT != nil && m.Call != nil && curATHit != nil && curATHit(m.Call) {
+					curAT(c)
+					curATFired()
+				}
+				if _, isOpaque := c["__opaque"]; !isOpaque {
+					jwt := idp.SignJWT(c, vfSignOpt{Key: 2})
+					idp.atGrant[jwt] = m.Grant
+					idp.atGen[jwt] = m.Grant.Gen
+					m.Resp["access_token"] = jwt
+				}
+			}
+		}
 		if m.Claims != nil && audClaim != "" {
 			m.Claims[audClaim] = []string{"someone-else", vfClientID}
 			delete(m.Claims, "aud")
@@ -213,7 +265,7 @@ func vfC14(w *vfWorld) {
 	var pending *vfLogin
 	var bearer string
 	prep := func(b *vfBrowser) bool {
-		if rotateKeys && cfg.Provider == "oidc" {
+		if rotateKeys && cfg.Provider != "plain" {
 			idp.RotateKey()
 		}
 		switch flow {
@@ -325,6 +377,9 @@ func vfC14(w *vfWorld) {
 				if cfg.Provider == "plain" && kd.Mint != nil {
 					continue // no ID token in the plain personality
 				}
+				if kd.AT != nil && !kc {
+					continue // role claims of the access token matter to the Keycloak flavour only
+				}
 				label := fmt.Sprintf("%s pos=%d(%s) kind=%s", flow, k, calls[k].Endpoint, kd.Name)
 				b := newBrowser()
 				if !prep(b) {
@@ -348,6 +403,7 @@ func vfC14(w *vfWorld) {
 						rejectedAT, _ = m.Resp["access_token"].(string)
 					}
 				}
+				curAT, curATHit, curATFired = kd.AT, hit, func() { fired = true }
 				idp.JWKSOverride = func(c *vfIdpCall) []byte {
 					if hit(c) && kd.JWKS != nil {
 						fired = true
@@ -368,6 +424,7 @@ func vfC14(w *vfWorld) {
 				}
 				r := act(b)
 				idp.Plan, curMint, idp.JWKSOverride, idp.Userinfo = nil, nil, nil, nil
+				curAT, curATHit, curATFired = nil, nil, nil
 				cs.Iterations++
 				if !fired {
 					w.probe("c14:fault-position-not-reached")
